@@ -1449,8 +1449,15 @@ class Exec:
                 if isinstance(k, int):
                     ok = v_cmp(">", n, k) if k >= 0 else v_cmp(">=", n, -k)
                 else:
-                    ok = v_and(v_cmp(">=", k, 0), v_cmp("<", k, n))
-                    # negative symbolic indices are not modelled
+                    # python index semantics: -len <= k < len, a negative index counts from the end
+                    ok = v_and(v_cmp(">=", k, v_arith("-", 0, n)), v_cmp("<", k, n))
+                    if not self.entails(st, v_cmp(">=", k, 0)):
+                        st_ok, raises = self.guard(st, ok, "IndexError", where)
+                        yield from raises
+                        if st_ok is not None:
+                            kk = v_ite(v_cmp(">=", k, 0), k, v_arith("+", n, k))
+                            yield v_index(v, kk), st_ok
+                        return
                 st_ok, raises = self.guard(st, ok, "IndexError", where)
                 yield from raises
                 if st_ok is not None:
